@@ -233,10 +233,6 @@ def convertible (cv : Conv) (toTag : String) (ob : Obj) : Bool :=
 def convRows (cv : Conv) (toTag : String) (ob : Obj) : List Row :=
   if needsConv toTag ob then ob.rows.map (fun r => (cv.lookup (ob.tag, toTag, r)).getD r) else ob.rows
 
-/-- `memo[id(b)] = …` of `TimeBase.insert` is stored under the id of `b` *after* `b = getattr(b, a.scale)`: when the
-scales differ that is the (cached) converted array, which no dataset holds — the entry is never found again -/
-def memoB (toTag : String) (ob : Obj) : Bool := !(needsConv toTag ob && tagScale ob.tag != tagScale toTag)
-
 /-- `TimeBase.insert`, `SigmaArray.insert`, `PositionArray.insert`, `PositionDeltaArray.insert`.
 `a`/`b` are object ids; returns the id of the combined object. -/
 def insertObj : Nat → Nat → Nat → Nat → St → M (Nat × St)
@@ -312,7 +308,9 @@ def insertObj : Nat → Nat → Nat → Nat → St → M (Nat × St)
         | .error e => .error e
         | .ok (rp, s2) =>
           let (n, s3) := s2.alloc { oa with rows := rows, other := oth, refPos := rp }
-          .ok (n, if memoB oa.tag ob then (s3.set a n).set b n else s3.set a n)
+          -- (after the `fix:`: the entry for `b` goes under the id `b` had on entry, also when `b` was converted to the
+          -- scale of `a` — the converted array is a cached value, not an identity)
+          .ok (n, (s3.set a n).set b n)
     | _, _ => .error .dangling
 
 /-- `np.insert` of the plain kinds (`Bool/Float/TextField._extend/_prepend_empty/_append_empty`):
@@ -455,6 +453,12 @@ def unitFactors (us : Units) (selfU otherU : Option (List String)) : M (List Rat
     | none => .error .unit
   | _, _ => .error .unit
 
+/-- formats that have no value for the empty epoch `datetime.min` (`TimeGPSWeekSec` / `TimeGPSSec._from_jds`: "Julian
+Day exceeds the GPS time start date"): a time field in such a format cannot be padded, `insert` of the empty epochs
+raises `ValueError` (a refusal; with no row to add nothing is converted and nothing raised) -/
+def padRefused (n : Nat) (ob : Obj) : Bool :=
+  n != 0 && ob.kind == .time && ["gps_ws", "gps_seconds"].contains ((ob.tag.splitOn "/").getLastD "")
+
 /-- `FieldType.prepend_empty` / `append_empty` (`front = true` is prepend) of `n` rows (after the
 `fix:` 352fb79 there is no shortcut for `n = 0`: the array is re-created and the memo consulted
 also when nothing is added, which keeps shared objects shared) -/
@@ -466,7 +470,8 @@ def padField (front : Bool) (n : Nat) : Field → St → M (Field × St)
       match s.heap[o]? with
       | none => .error .dangling
       | some ob =>
-        if ob.kind != k then .error .unsupported else   -- (model guard)
+        -- (model guard; and the refusal to pad a time in a GPS-only format)
+        if ob.kind != k || padRefused n ob then (if ob.kind != k then .error .unsupported else .error .value) else
         let r : M (Nat × St) :=
           if k.isPlain then insertPlain o pos (List.replicate n (emptyRow k ob.cols)) s
           else if k.isDelta then
